@@ -39,6 +39,8 @@ func checkC01(p *Prog, r *Report) {
 	ruleNILF(p, r, fs)
 	ruleTA(p, r, fs, cont)
 	ruleRecur(p, r, fs)
+	rulePoolNil(p, r)
+	r.Floor("POOL-NIL", 6)
 	r.Floor("RECUR", 2)
 	if r.Tier == "thorough" {
 		bceCrossRef(p, r, fs)
